@@ -348,6 +348,53 @@ def _():
     return emit_kernel('k_lfq_ste', LFQF, 'LFQ.forward', 'F', [('x', 'a', 'F'), ('quantized', 'q', 'F')], expr=blk.body[1].value, funs=('detach',))
 
 
+def ste_item(name, fname, qual, target, params):
+    """the unique assignment `target = <expr containing .detach()>` of the function, as a value kernel with detach abstract"""
+    f = find_func(fname, qual)
+    cands = [n for n in ast.walk(f) if isinstance(n, ast.Assign) and len(n.targets) == 1 and ast.unparse(n.targets[0]) == target and '.detach()' in ast.unparse(n.value)]
+    if len(cands) != 1:
+        raise GenError(f'{qual}: expected exactly one straight-through assignment to {target}, found {len(cands)}')
+    return emit_kernel(name, fname, qual, 'F', params, expr=cands[0].value, funs=('detach',))
+
+
+@item('k_vq_ste')
+def _():
+    f = find_func(VQ, 'VectorQuantize.forward')
+    cands = [n for n in ast.walk(f) if isinstance(n, ast.Assign) and ast.unparse(n.targets[0]) == 'quantize' and '.detach()' in ast.unparse(n.value) and 'sync_update_v' not in ast.unparse(n.value)]
+    if len(cands) != 1:
+        raise GenError('VectorQuantize.forward: expected exactly one straight-through assignment to quantize')
+    return emit_kernel('k_vq_ste', VQ, 'VectorQuantize.forward', 'F', [('x', 'x', 'F'), ('quantize', 'q', 'F')], expr=cands[0].value, funs=('detach',))
+
+
+@item('k_vq_sync_update')
+def _():
+    f = find_func(VQ, 'VectorQuantize.forward')
+    cands = [n for n in ast.walk(f) if isinstance(n, ast.Assign) and ast.unparse(n.targets[0]) == 'quantize' and 'sync_update_v' in ast.unparse(n.value)]
+    if len(cands) != 1:
+        raise GenError('VectorQuantize.forward: expected exactly one synchronous-update assignment to quantize')
+    return emit_kernel('k_vq_sync_update', VQ, 'VectorQuantize.forward', 'F', [('quantize', 'q', 'F'), ('self.sync_update_v', 'v', 'F')], expr=cands[0].value, funs=('detach',))
+
+
+@item('k_fsq_round_ste')
+def _():
+    return emit_kernel('k_fsq_round_ste', FSQF, 'round_ste', 'F', [('z', 'z', 'F')], funs=('round', 'detach'))
+
+
+@item('k_simvq_ste')
+def _():
+    return ste_item('k_simvq_ste', SIMVQ, 'SimVQ.forward', 'quantized', [('x', 'x', 'F'), ('quantized', 'q', 'F')])
+
+
+@item('k_lq_ste')
+def _():
+    return ste_item('k_lq_ste', LQ, 'LatentQuantize.quantize', 'quantize', [('z', 'x', 'F'), ('quantize', 'q', 'F')])
+
+
+@item('k_gumbel_st')
+def _():
+    return ste_item('k_gumbel_st', VQ, 'gumbel_sample', 'one_hot', [('one_hot', 'h', 'F'), ('π1', 'p', 'F')])
+
+
 @item('p_lfq_codec')
 def _():
     rows = [ast.unparse(assigned_expr(LFQF, 'LFQ.forward', 'indices', 0)),
